@@ -582,13 +582,15 @@ func AmountSplit(amount uint64) []uint64 {
 }
 
 func CheckDuplicateProofs(proofs Proofs) bool {
-	proofsMap := make(map[Proof]bool)
+	// proofs are the same if they have the same secret, whatever
+	// the other fields (witness, DLEQ pointer, amount) say
+	secrets := make(map[string]bool)
 
 	for _, proof := range proofs {
-		if proofsMap[proof] {
+		if secrets[proof.Secret] {
 			return true
 		} else {
-			proofsMap[proof] = true
+			secrets[proof.Secret] = true
 		}
 	}
 
@@ -596,13 +598,15 @@ func CheckDuplicateProofs(proofs Proofs) bool {
 }
 
 func CheckDuplicateBlindedMessages(bms BlindedMessages) bool {
-	bmMap := make(map[BlindedMessage]bool)
+	// blinded messages are the same if they have the same B_, whatever
+	// the other fields (amount, id, witness) say
+	B_s := make(map[string]bool)
 
 	for _, bm := range bms {
-		if bmMap[bm] {
+		if B_s[bm.B_] {
 			return true
 		} else {
-			bmMap[bm] = true
+			B_s[bm.B_] = true
 		}
 	}
 
